@@ -522,6 +522,12 @@ func (hs *serverHandshakeState) checkForResumption() bool {
 		return false
 	}
 
+	// Never resume a session for a different TLS version: the version in
+	// ServerHello is the one negotiated for this connection (c.vers).
+	if c.vers != hs.sessionState.vers {
+		return false
+	}
+
 	cipherSuiteOk := false
 	// Check that the client is still offering the ciphersuite in the session.
 	for _, id := range hs.clientHello.cipherSuites {
